@@ -45,7 +45,8 @@ pub proof fn lemma_named_wf(fin: ParsedPacket, mid: ParsedPacket, si: int, k: in
            // the record is still record k of its section, and the records after it are the ones that followed
            sec_st(v, si) == st && sec_n(v, si) == n && pf_rrs_end(v, st, k) == o && pf_rr(v, o) && pcs_end(v, o) == Some(o + nm.len()) && pf_end(v, o) == o + wl
            && !pf_is_opt(v, o) && pf_rrs(v, st, n) && pf_rrs(v, o + wl, n - k - 1) && pf_rrs_end(v, o + wl, n - k - 1) == pf_rrs_end(v, st, n)
-           && pf_n_opt(v, o + wl, n - k - 1) == pf_n_opt(u, pf_end(u, o), n - k - 1) }),
+           && pf_n_opt(v, o + wl, n - k - 1) == pf_n_opt(u, pf_end(u, o), n - k - 1)
+           && pkt_edit_pre(u, v, si, k, 1, wl, 1) }),
 {
     hide(pf_rr); hide(pf_rrs); hide(pf_rrs_end); hide(pf_n_opt); hide(pf_packet); hide(opt_at); hide(ParsedPacket::wf); hide(pcs_walk);
     let u = mid.bytes(); let v = fin.bytes(); let st = sec_st(u, si); let n = sec_n(u, si); let o = pf_rrs_end(u, st, k); let ne = pcs_end(u, o).unwrap();
@@ -81,7 +82,8 @@ pub proof fn lemma_deleted_wf(fin: ParsedPacket, mid: ParsedPacket, si: int, k: 
         ({ let u = mid.bytes(); let v = fin.bytes(); let st = sec_st(u, si); let n = sec_n(u, si); let o = pf_rrs_end(u, st, k);
            // C11: the section now holds the other records, in order: k before the cut, n-k-1 after it, starting where the removed record started
            sec_st(v, si) == st && sec_n(v, si) == n - 1 && pf_rrs_end(v, st, k) == o && pf_rrs(v, st, n - 1)
-           && pf_rrs(v, o, n - k - 1) && pf_rrs_end(v, o, n - k - 1) == pf_rrs_end(v, st, n - 1) }),
+           && pf_rrs(v, o, n - k - 1) && pf_rrs_end(v, o, n - k - 1) == pf_rrs_end(v, st, n - 1)
+           && pkt_edit_pre(u, v, si, k, 1, 0, 0) }),
 {
     hide(pf_rr); hide(pf_rrs); hide(pf_rrs_end); hide(pf_n_opt); hide(pf_packet); hide(opt_at); hide(ParsedPacket::wf); hide(pcs_walk);
     let u = mid.bytes(); let v = fin.bytes(); let st = sec_st(u, si); let n = sec_n(u, si); let o = pf_rrs_end(u, st, k);
@@ -114,7 +116,8 @@ pub proof fn lemma_inserted_wf(fin: ParsedPacket, mid: ParsedPacket, si: int, rr
         ({ let u = mid.bytes(); let v = fin.bytes(); let st = sec_st(u, si); let n = sec_n(u, si);
            // C09: "appends the given record at the end of the chosen section"
            ins_point(mid, sec_of_idx(si)) == pf_rrs_end(u, st, n) && sec_st(v, si) == st && sec_n(v, si) == n + 1 && pf_rrs(v, st, n + 1) && pf_rrs_end(v, st, n) == pf_rrs_end(u, st, n)
-           && pf_rr(v, pf_rrs_end(u, st, n)) && pf_end(v, pf_rrs_end(u, st, n)) == pf_rrs_end(u, st, n) + rr.len() }),
+           && pf_rr(v, pf_rrs_end(u, st, n)) && pf_end(v, pf_rrs_end(u, st, n)) == pf_rrs_end(u, st, n) + rr.len()
+           && pkt_edit_pre(u, v, si, n, 0, rr.len() as int, 1) }),
 {
     hide(pf_rr); hide(pf_rrs); hide(pf_rrs_end); hide(pf_n_opt); hide(pf_packet); hide(opt_at); hide(ParsedPacket::wf); hide(pcs_walk);
     let u = mid.bytes(); let v = fin.bytes(); let st = sec_st(u, si); let n = sec_n(u, si); let a = pf_rrs_end(u, st, n);
